@@ -69,4 +69,30 @@ def gstep (st : GSt) (x : Nat × GOp) : GSt :=
 
 def grun (l : List (Nat × GOp)) : GSt := l.foldl gstep ⟨none, [], []⟩
 
+/-! ## `Symbol::as_str`: slices into ONE growing buffer (`StringBackend`) with the lifetime erased -/
+
+structure Buf where
+  gen : Nat      -- which allocation backs the buffer (a reallocation is a new generation)
+  len : Nat
+  cap : Nat
+  deriving DecidableEq, Repr
+
+/-- `get_or_intern` of a new string of `n` bytes: append; reallocate when the capacity is exceeded -/
+def Buf.push (b : Buf) (n : Nat) : Buf :=
+  if b.len + n ≤ b.cap then { b with len := b.len + n } else { gen := b.gen + 1, len := b.len + n, cap := 2 * (b.len + n) }
+
+/-- what `as_str` hands out: a pointer into the allocation that backed the buffer at that moment -/
+structure Slice where
+  gen : Nat
+  off : Nat
+  n : Nat
+  deriving DecidableEq, Repr
+
+def Buf.asStr (b : Buf) (off n : Nat) : Slice := ⟨b.gen, off, n⟩
+
+/-- the slice still points into live memory -/
+def Slice.valid (s : Slice) (b : Buf) : Prop := s.gen = b.gen ∧ s.off + s.n ≤ b.len
+
+instance (s : Slice) (b : Buf) : Decidable (s.valid b) := by unfold Slice.valid; infer_instance
+
 end Mimium.SessionLock
